@@ -210,6 +210,10 @@ class DepDomain(Domain):
             return Const(None)
         if dotted in ('builtins.map', 'builtins.zip', 'builtins.enumerate', 'builtins.reversed') and args and any(isinstance(a, Tup) for a in args):
             return None          # structural: the interpreter applies / pairs the elements itself
+        if dotted == 'builtins.map' and len(args) == 2 and isinstance(args[1], Dep):
+            # map(f, xs) over an input sequence: elementwise f; float / complex / ... keep what the sequence determines
+            fname = ('builtins.' + getattr(args[0], 'name', '')) if type(args[0]).__name__ == 'BuiltinRef' else getattr(args[0], 'dotted', '')
+            return Dep(args[1].deps, args[1].inj if fname in INJECTIVE_CALLS else ())
         if len(vals) == 1 and isinstance(vals[0], Dep) and len(vals[0].deps) == 1 and vals[0].inj == vals[0].deps:
             # a many-to-one function of one atom (abs, round, int, len ...): a derived atom of its own.  A key holding it determines
             # it (and whatever is computed from it), but not the atom it was derived from
